@@ -121,11 +121,9 @@ class Stats:
         for it in o.audit:
             if len(self.audit) < AUDIT_KEEP:
                 heapq.heappush(self.audit, it)
-            elif it.d < self.audit[0].d:
+            elif it.key() < self.audit[0].key():
                 heapq.heapreplace(self.audit, it)
-        for s in o.samples:
-            if len(self.samples) < 6:
-                self.samples.append(s)
+        self.samples = sorted(self.samples + o.samples, key=lambda x: x["_k"])[:2]
         self.bound_pruned += o.bound_pruned
         self.extra.update(o.extra)
 
@@ -142,8 +140,11 @@ class _AuditItem:
     def __init__(self, d, cfg_index, choices):
         self.d, self.cfg_index, self.choices = d, cfg_index, choices
 
+    def key(self):
+        return (self.d, self.cfg_index, tuple(self.choices))
+
     def __lt__(self, other):
-        return self.d > other.d
+        return self.key() > other.key()
 
 
 class _NullHandler:
@@ -204,14 +205,17 @@ def _account(stats: Stats, cfg_index, cfg, ctl: Ctl, obs: dict, new_from: int, a
             stats.violations.append(
                 {"cfg_index": cfg_index, "cfg": cfg, "choices": ctl.choices, "obs": obs, "digest": d}
             )
-    if len(stats.samples) < 2:
-        stats.samples.append({"cfg": cfg, "choices": ctl.choices,
+    skey = (cfg_index, tuple(ctl.choices))
+    if len(stats.samples) < 2 or skey < stats.samples[-1]["_k"]:
+        stats.samples.append({"_k": skey, "cfg": cfg, "choices": ctl.choices,
                               "labels": [t[1] for t in ctl.trace][:12],
                               "outcome": obs.get("outcome")})
+        stats.samples.sort(key=lambda x: x["_k"])
+        del stats.samples[2:]
     # determinism audit candidates: the AUDIT_KEEP executions with the smallest digests
     if len(stats.audit) < AUDIT_KEEP:
         heapq.heappush(stats.audit, _AuditItem(d, cfg_index, ctl.choices))
-    elif d < stats.audit[0].d:
+    elif (d, cfg_index, tuple(ctl.choices)) < stats.audit[0].key():
         heapq.heapreplace(stats.audit, _AuditItem(d, cfg_index, ctl.choices))
 
 
@@ -356,7 +360,7 @@ def explore(
                 total.merge(val)
             else:
                 errors.append(f"{tag}: {val}")
-        audit_items = [(it.cfg_index, it.choices, it.d) for it in sorted(total.audit, key=lambda x: x.d)]
+        audit_items = [(it.cfg_index, it.choices, it.d) for it in sorted(total.audit, key=lambda x: x.key())]
         replayed = [_worker_replay(it) for it in audit_items[:300]]
         fid = [_worker_fidelity(it) for it in audit_items[:150]] if fidelity and not errors else []
     else:
@@ -371,7 +375,7 @@ def explore(
                     errors.append(f"{tag}: {val}")
                     if len(errors) > 5:
                         break
-            audit_items = [(it.cfg_index, it.choices, it.d) for it in sorted(total.audit, key=lambda x: x.d)][:300]
+            audit_items = [(it.cfg_index, it.choices, it.d) for it in sorted(total.audit, key=lambda x: x.key())][:300]
             # re-run in (most likely) a different worker: reversed order, chunksize 1
             replayed = pool.map(_worker_replay, list(reversed(audit_items)), chunksize=1) if not errors else []
             fid = pool.map(_worker_fidelity, audit_items[:150], chunksize=1) if fidelity and not errors else []
